@@ -159,3 +159,8 @@ Proof. guard_shape. Qed.
 Lemma g_Exchange_0 x : holds (gd G_Client_Exchange 0) x = (x >? 0). Proof. reflexivity. Qed.
 Lemma g_Exchange_1 x : holds (gd G_Client_Exchange 1) x = (x >? 0). Proof. reflexivity. Qed.
 Lemma g_Exchange_2 x : holds (gd G_Client_Exchange 2) x = (x >? 0). Proof. reflexivity. Qed.
+
+(* ---- server-packet.go ---- *)
+Example shape_Serve : gexpr_is G_PacketServer_Serve 3 "len(secret)" = true.
+Proof. guard_shape. Qed.
+Lemma g_Serve_3 x : holds (gd G_PacketServer_Serve 3) x = (x =? 0). Proof. reflexivity. Qed.
